@@ -20,7 +20,8 @@ TEXTS = {
              "the given bindings, also inside arrays and repeated (C02_match_complete_inequality: the result is the bounds plus the "
              "assignment); exactness for linear plain patterns, no error on the supported fragment whatever the kinds of variables, "
              "harmlessness of extra keys/elements at any depth; the naive statements for optional variables are refuted with "
-             "witnesses; planted-assignment oracle on the Go results plus model/Go comparison.",
+             "witnesses; planted-assignment oracle on the Go results (plain and optional-variable plantings; proved sound: what the completeness "
+             "theorems guarantee passes it, C02_oracle_sound / C02_optional_oracle_sound) plus model/Go comparison.",
         note=MATCH_NOTE + " The converse (every result is an embedding) is proved for linear plain patterns only; a repeated optional "
              "variable bound at one occurrence and absent at another is returned but is not an embedding in the strict sense (witness in "
              "Proofs/MatchCompleteOpt.v)."),
